@@ -242,7 +242,7 @@ impl PfvProxy {
 }
 
 // every access path addresses record i at 20 + i * record_size (64-bit, no overflow) - the lazy and the parallel path
-// @harness unit=U17.7 props=C17 kind=complete timeout=120 target="lazy.rs: LazyDbcParser::get_record position statement; parallel.rs: parse_records_parallel position statement (E11 blocks)" oracle=dbc_header
+// @harness unit=U17.7 props=C17 kind=complete timeout=120 target="lazy.rs: LazyDbcParser::get_record position statement; parallel.rs: parse_records_parallel position statement (E11 blocks)" oracle=dbc_paths
 #[kani::proof]
 #[kani::unwind(4)]
 #[kani::stub(alloc::fmt::format, stub_format)]
@@ -278,19 +278,19 @@ fn array_field_decode(t: FieldType, w: usize) {
 }
 
 // one harness per element width (a symbolic element type exhausts the time limit)
-// @harness unit=U17.7 props=C17 kind=bounded bound="array of 2 u8 elements; every byte value" timeout=600 target="parser.rs: DbcParser::parse_record_with_schema per-field statement (E11 block)" oracle=dbc_writer
+// @harness unit=U17.7 props=C17 kind=bounded bound="array of 2 u8 elements; every byte value" timeout=600 target="parser.rs: DbcParser::parse_record_with_schema per-field statement (E11 block)" oracle=dbc_paths
 #[kani::proof]
 #[kani::unwind(8)]
 #[kani::stub(alloc::fmt::format, stub_format)]
 fn u17_7_array_field_decode_u8() { array_field_decode(FieldType::UInt8, 1); }
 
-// @harness unit=U17.7 props=C17 kind=bounded bound="array of 2 u16 elements; every byte value" timeout=600 target="parser.rs: DbcParser::parse_record_with_schema per-field statement (E11 block)" oracle=dbc_writer
+// @harness unit=U17.7 props=C17 kind=bounded bound="array of 2 u16 elements; every byte value" timeout=600 target="parser.rs: DbcParser::parse_record_with_schema per-field statement (E11 block)" oracle=dbc_paths
 #[kani::proof]
 #[kani::unwind(8)]
 #[kani::stub(alloc::fmt::format, stub_format)]
 fn u17_7_array_field_decode_u16() { array_field_decode(FieldType::UInt16, 2); }
 
-// @harness unit=U17.7 props=C17 kind=bounded bound="array of 2 u32 elements; every byte value" timeout=600 target="parser.rs: DbcParser::parse_record_with_schema per-field statement (E11 block)" oracle=dbc_writer
+// @harness unit=U17.7 props=C17 kind=bounded bound="array of 2 u32 elements; every byte value" timeout=600 target="parser.rs: DbcParser::parse_record_with_schema per-field statement (E11 block)" oracle=dbc_paths
 #[kani::proof]
 #[kani::unwind(8)]
 #[kani::stub(alloc::fmt::format, stub_format)]
